@@ -44,6 +44,10 @@ def call(ctx, op, fn, *a, budget=PARSE_BUDGET, pos=False, meta=False, raw=False,
     except RecursionError:
         return ['exc', {'class': 'RecursionError', 'is_ui': False, 'is_lark': False, 'msg': ''}]
     except Exception as e:
+        if type(e).__name__ in ('AttributeError', 'TypeError', 'IndexError', 'KeyError', 'NameError', 'UnboundLocalError', 'AssertionError'):
+            # made visible in every evidence file: exceptions of these classes out of a lark API call are rarely a verdict
+            # about the input (each check decides what they mean where it is called)
+            ctx.count('api-call-raised:%s:%s' % (op, type(e).__name__))
         return ['exc', canon_exc(e)]
 
 
